@@ -2,7 +2,7 @@ use crate::{
     adapter::{Adapter, Filter},
     error::{AdapterError, ModelError},
     model::Model,
-    util::parse_csv_line,
+    util::{csv_field, parse_csv_line},
     Result,
 };
 
@@ -169,16 +169,32 @@ where
 
         for (ptype, ast) in ast_map {
             for rule in ast.get_policy() {
-                writeln!(policies, "{}, {}", ptype, rule.join(","))
-                    .map_err(|e| AdapterError(e.into()))?;
+                writeln!(
+                    policies,
+                    "{}, {}",
+                    ptype,
+                    rule.iter()
+                        .map(|v| csv_field(v))
+                        .collect::<Vec<_>>()
+                        .join(",")
+                )
+                .map_err(|e| AdapterError(e.into()))?;
             }
         }
 
         if let Some(ast_map) = m.get_model().get("g") {
             for (ptype, ast) in ast_map {
                 for rule in ast.get_policy() {
-                    writeln!(policies, "{}, {}", ptype, rule.join(","))
-                        .map_err(|e| AdapterError(e.into()))?;
+                    writeln!(
+                        policies,
+                        "{}, {}",
+                        ptype,
+                        rule.iter()
+                            .map(|v| csv_field(v))
+                            .collect::<Vec<_>>()
+                            .join(",")
+                    )
+                    .map_err(|e| AdapterError(e.into()))?;
                 }
             }
         }
